@@ -1369,6 +1369,12 @@ static bool parse_cs_string(TokenContext &ctx, Chunk &pc)
       else if (ch == '\r')
       {
          pc.SetType(CT_STRING_MULTI);
+
+         if (ctx.peek() != '\n')
+         {
+            // a CR line ending: counted like LF and CR LF
+            pc.SetNlCount(pc.GetNlCount() + 1);
+         }
       }
       else if (parseState.top().braceDepth > 0)
       {
@@ -1555,8 +1561,11 @@ static bool parse_cr_string(TokenContext &ctx, Chunk &pc, size_t q_idx)
          return(true);
       }
 
-      if (ctx.peek() == '\n')
+      if (  ctx.peek() == '\n'
+         || (  ctx.peek() == '\r'
+            && ctx.peek(1) != '\n'))
       {
+         // LF, the LF of CR LF, or a CR line ending
          pc.Str().append(ctx.get());
          pc.SetNlCount(pc.GetNlCount() + 1);
          pc.SetType(CT_STRING_MULTI);
